@@ -14,7 +14,7 @@ CHECKS = {
             "DESIGN.md section 4, C16"),
     "C02": ("model_checking",
             "TLA+ denotation Eval (one clause per layer, mentioning only its own configuration and Eval of the rest) checked by TLC over an enumerated program space + one generated C++ program per stack compared exactly with Eval",
-            "TLC enumerates stacks from the layer grammar (one per grammar-adjacent pair of layer kinds with N and M rotating independently over 1..4, plus seeded stacks to depth 5), checks well-kindedness, definedness and the one-line law of the outermost layer, and emits every stack with the values Eval prescribes at every in-domain coordinate of a dyadic grid; each stack becomes a translation unit that builds the real stack with pairwise distinct configuration values and compares both lookup forms exactly, under assertions + ASan/UBSan.",
+            "TLC enumerates stacks from the layer grammar (one per grammar-adjacent pair of layer kinds with N and M rotating independently over 1..4, plus seeded stacks to depth 5; thorough: additionally every stack of the grammar to depth 3, about 4 800), checks well-kindedness, definedness and the one-line law of the outermost layer, and emits every stack with the values Eval prescribes at every in-domain coordinate of a dyadic grid; each stack becomes a translation unit that builds the real stack with pairwise distinct configuration values and compares both lookup forms exactly, under assertions + ASan/UBSan.",
             "Trusted: TLC, g++ 12, lib/gen_stack.py (descriptor to C++ type), harness/stack_common.hpp. The program space is covered pairwise + sampled, not exhaustively; interpolators sit over integer-coordinate backends as the grammar states.",
             "DESIGN.md section 4, C02"),
     "C13": ("exploration",
@@ -29,7 +29,7 @@ CHECKS = {
             "DESIGN.md section 4, C17"),
     "C06": ("model_checking",
             "TLA+ grammar of the binary format over 16-bit limbs checked by TLC (Parse o Ser = id) + byte-exact comparison of real dumps with the specification's stream + TLC parsing dumps of random bit patterns",
-            "TLC checks the round-trip and grammar laws for 20 catalogue stacks covering every serialisable layer and value sets with signed zeros, subnormals, infinities and NaN payloads; every instance is built on the real library, dumped and compared byte for byte with the stream the specification prescribes (an independent definition of the format), reloaded, compared layer by layer and bit by bit, and re-dumped; random bit patterns dumped by the library are parsed independently by TLC.",
+            "TLC checks the round-trip and grammar laws for 20 catalogue stacks covering every serialisable layer and value sets with signed zeros, subnormals, infinities and NaN payloads; every instance is built on the real library, dumped and compared byte for byte with the stream the specification prescribes (an independent definition of the format), reloaded, compared layer by layer and bit by bit and through lookups at every coordinate, and re-dumped, in the assertion and the NDEBUG build; random bit patterns (every fifth instance scaled beyond 1024 cells and written to / read from a real file) dumped by the library are parsed independently by TLC.",
             "Trusted: TLC, g++ 12, harness/h_io.cpp (memcpy-based projection of configurations and stored scalars). Extents are 1..3 per axis plus one value set with more than 256 cells.",
             "DESIGN.md section 4, C06"),
     "C07": ("model_checking",
@@ -39,7 +39,7 @@ CHECKS = {
             "DESIGN.md section 4, C07"),
     "C08": ("model_checking",
             "TLA+ state machine of the loader over faulty streams checked by TLC (safety + liveness) + complete fault enumeration replayed on the real loader in forked children (assertion+ASan, NDEBUG, valgrind sample)",
-            "TLC checks, for every catalogue instance in scope and every fault (writer interrupted after any limb, any header/footer/tag/width limb replaced, failure at the n-th read, incompatible reading stack), that the loader never returns or aborts and eventually throws, and that it terminates; every enumerated fault - truncation at every byte offset - is applied to the real dump and loaded by the real loader behind a fault-injecting streambuf in a forked child, the observed outcome must be `threw` in the assertion+ASan build and the NDEBUG build, and a sample runs under valgrind to expose decisions on uninitialised data.",
+            "TLC checks, for every catalogue instance in scope and every fault (writer interrupted after any limb, any header/footer/tag/width limb replaced, failure at the n-th read, incompatible reading stack), that the loader never returns or aborts and eventually throws, and that it terminates; every enumerated fault - truncation at every byte offset - is applied to the real dump and loaded by the real loader behind a fault-injecting streambuf in a forked child (also with stream exception masks enabled by the caller), the observed outcome - threw / returned / aborted / signal / hang / terminate - must be `threw` in the assertion+ASan build and the NDEBUG build, and a sample runs under valgrind to expose decisions on uninitialised data; the catalogue includes empty arrays.",
             "Trusted: TLC, g++ 12, ASan/UBSan, valgrind, fork-based outcome classification. Assumes payloads do not contain the magic words; count-word corruption is outside the property's fault list.",
             "DESIGN.md section 4, C08"),
     "C15": ("exploration",
@@ -49,7 +49,7 @@ CHECKS = {
             "DESIGN.md section 4, C15 and section 6"),
     "C12": ("model_checking",
             "TLA+ state machine of field slots, heap blocks and a ghost array model checked by TLC + TLC-generated behaviours (one per transition, plus seeded simulations) replayed on real fields with full state comparison after every step",
-            "TLC exhausts every history of construct / write / copy and move construction and assignment (incl. self-assignment) / conversion / dump / load / destroy over 2 slots (<= 5 or 6 operations) and 3 slots (<= 5) and checks Refines, NoAlias, NoUseAfterFree, NoDoubleFree, NoLeak; the implementation is bound by replaying one witness behaviour per transition of the abstract state graph and simulated 30-operation histories on real fields, comparing all values, configurations and the number of live storage blocks after every step under ASan/LSan/UBSan.",
+            "TLC exhausts every history of construct / write / copy and move construction and assignment (incl. self-assignment) / conversion / dump / load / destroy over 2 slots (<= 5 or 6 operations) and 3 slots (<= 5) and checks Refines, NoAlias, NoUseAfterFree, NoDoubleFree, NoLeak; the implementation is bound by replaying one witness behaviour per transition of the abstract state graph and simulated 30-operation histories on real fields, comparing all values, configurations and the number of live storage blocks after every step under ASan/LSan/UBSan; in the other direction an independent seeded random driver performs 70-operation histories (incl. moving conversions and default-constructed fields) on real fields and every logged operation with the observed projection of every slot must be a step of the specification (Trace_Lifecycle).",
             "Trusted: TLC, g++ 12, ASan/LSan/UBSan, replaced operator new[]/delete[], harness/h_lifecycle.cpp. Moved-from and self-moved fields are unspecified (only destroyed or assigned to). Field types: four layouts x N in 1..4 over array<float1>.",
             "DESIGN.md section 4, C12"),
     "C05": ("model_checking",
@@ -59,7 +59,7 @@ CHECKS = {
             "DESIGN.md section 4, C05 and section 6"),
     "C03": ("model_checking",
             "TLA+ definition of the interpolator as coded vs the tensor-product interpolant checked by TLC + emitted fields/queries replayed exactly + trace validation of random dyadic queries",
-            "TLC proves on the exact (dyadic/integer) domain that the interpolator as coded (per-branch corner convention and weights) equals the textbook N-linear interpolant, is exact at lattice points, stays within the surrounding values and reads exactly the 2^N cell vertices; every enumerated field and query is replayed with exact equality for coordinate and storage precisions float/double, M in 1..4, strided and Morton storage, a clamp beneath, an N-d probe for the cells read, and precision probes at 2^-20/2^-30; random grids are validated by Trace_Interp.",
+            "TLC proves on the exact (dyadic/integer) domain that the interpolator as coded (per-branch corner convention and weights) equals the textbook N-linear interpolant, is exact at lattice points, stays within the surrounding values and reads exactly the 2^N cell vertices; every enumerated field and query is replayed with exact equality for coordinate and storage precisions float/double, M in 1..4, strided and Morton storage, a clamp beneath, an N-d probe for the cells read, precision probes at 2^-20/2^-30, lattice exactness when the stored value needs narrowing (oracle Float!Narrow) and huge-magnitude values of opposite sign (homogeneity scaling by 2^127 / 2^1023); random grids are validated by Trace_Interp.",
             "Trusted: TLC, g++ 12, exactness of IEEE arithmetic on the chosen domain. Not decided: the size of the rounding error for arbitrary finite floats; lattice exactness with stored values that need narrowing is covered by C07's Float module only for IO.",
             "DESIGN.md section 4, C03 and section 6"),
     "C09": ("model_checking",
@@ -79,12 +79,12 @@ CHECKS = {
             "DESIGN.md section 4, C04"),
     "C10": ("model_checking",
             "TLA+ state machine of clamped lookups in rank space checked by TLC + emitted cases replayed on clamp over identity/probe/array backends under ASan",
-            "TLC checks ClampSafe for every box lo<=hi (bounds incl. the type's extremes) and every coordinate rank incl. lowest/max/+-inf; each enumerated case is replayed for five coordinate types (floating types also with 1-ulp-spaced values) on clamp<identity>, clamp<probe> (queried coordinate, one query) and, with wild coordinates, over array storage above and beneath an interpolator under ASan.",
+            "TLC checks ClampSafe for every box lo<=hi (bounds incl. the type's extremes) and every coordinate rank incl. lowest/max/+-inf; TLAPS proves the per-axis laws (in box, idempotent, = median) for all integers; each enumerated case is replayed for five coordinate types (floating types also with 1-ulp-spaced values) on clamp<identity>, clamp<probe> (queried coordinate, one query) and, with wild coordinates, over array storage above and beneath an interpolator under ASan; random boxes and coordinates (type extremes, infinities, 1-step neighbours of the bounds, 64-bit aliases modulo 2^32) are abstracted to their order relation with the box and validated by Trace_Coord.",
             "Trusted: TLC, g++ 12, ASan/UBSan, harness probe backend. Order-only abstraction: clamp only compares, so an order-preserving concretisation of ranks is exact. NaN excluded (as stated).",
             "DESIGN.md section 4, C10"),
     "C11": ("model_checking",
             "TLA+ state machine with a ghost backend-query counter checked by TLC (invariant + action properties) + emitted cases replayed on backup over a counting probe backend",
-            "TLC checks BackupLaw and the action properties NoQueryOutside / OneQueryInside over every box and coordinate rank; each case is replayed on backup<probe> comparing the returned value and the probe's query counter after every lookup, five coordinate types, N in 1..4.",
+            "TLC checks BackupLaw and the action properties NoQueryOutside / OneQueryInside over every box and coordinate rank; each case is replayed on backup<probe> comparing the returned value and the probe's query counter after every lookup, five coordinate types, N in 1..4; random boxes and coordinates abstracted to order relations are validated by Trace_Coord.",
             "Trusted: TLC, g++ 12, harness probe backend (harness/probe.hpp). N=3,4 by rotating per-axis cover.",
             "DESIGN.md section 4, C11"),
     "C01": ("model_checking",
@@ -94,7 +94,7 @@ CHECKS = {
             "DESIGN.md section 4, C01"),
     "C14": ("model_checking",
             "TLA+ definitions of the index maps as coded vs published curves checked by TLC + TLC-emitted cases replayed on the layers + trace validation on 64-bit bit sequences",
-            "TLC proves, for every coordinate vector below 2^b per axis and boundary patterns, that the portable Morton loop and the mask/pdep construction equal the bit interleave, that row-major equals the Horner form, and that Hilbert xy2d-as-coded is inverted by d2xy with origin and adjacency laws (k <= 6/8); replayed on the real layers over identity<size1> and the static index functions in portable and BMI2 builds; coordinates up to 2^floor(64/N) and Hilbert k <= 10 by trace validation.",
+            "TLC proves, for every coordinate vector below 2^b per axis and boundary patterns, that the portable Morton loop and the mask/pdep construction equal the bit interleave, that row-major equals the Horner form, and that Hilbert xy2d-as-coded is inverted by d2xy with origin and adjacency laws (k <= 6/8); replayed on the real layers over identity<size1> and the static index functions in portable, BMI2 and NDEBUG builds; positions are also read off the storage block itself, including fields converted to row-major; coordinates up to 2^floor(64/N) (bit sequences), row-major fields beyond 2^32 cells (limb arithmetic) and Hilbert k <= 10 by trace validation (thorough: Hilbert laws exhaustively to k = 10 in TLC).",
             "Trusted: TLC, Bitwise module overrides, g++ 12. Hilbert k = 9, 10 and coordinates above the enumerated bit widths are sampled (boundary patterns + random), not exhaustive.",
             "DESIGN.md section 4, C14"),
     "C18": ("model_checking",
